@@ -19,9 +19,9 @@ UNIT = Unit(
     # read_gom_sources' sortedness is C13's clause; load_package's one-package clause is C16's
     clause_scope={"C13": {"only": ["paths_sorted("]}, "C16": {"except": ["paths_sorted("]}},
     rules=["attrs", "fmtmsg", "msg_to_string", "ok_or_else_q", "let_chain", "let_chain_rev", "opt_map"],
-    describe="packages::load_package: a package unit is ONE package — every file loaded into it (the entry file and every other .gom file of "
+    describe="packages::load_package and separate::read_source_files: a package unit is ONE package — every file loaded into it (the entry file and every other .gom file of "
              "the directory) declares the unit's own package name; a file declaring another package is an error, never silently merged "
-             "(its top-level items would otherwise be resolved under that other package's name)",
+             "(its top-level items would otherwise be resolved under that other package's name); the unit's name is never the reserved `Builtin`",
     trusted=["read_gom_sources: fs::read_dir / DirEntry / Path::extension are stubs, `for entry in entries` is rewritten to a loop over Iterator::next, "
              "`files.sort()` to a shim that establishes sortedness (std); termination of the directory walk is not claimed",
              "the file system, the parser and collect_imports are stubs (arbitrary results); `?` on read_gom_sources / read_to_string / "
@@ -44,7 +44,8 @@ UNIT = Unit(
            contract="ensures r matches Ok(v) ==> paths_sorted(v@),",
            loop_fn=lambda k, header, kw, body: "invariant true,"),
         Fn(file=P, name="load_package", ret="r",
-           obligation="every file of the returned unit declares the unit's package name",
+           obligation="every file of the returned unit declares the unit's package name, and that name is not the reserved `Builtin` (whose items "
+                      "get unqualified global names like Main's: a user package of that name would silently replace Main's items)",
            pre_rewrites=[
                ("for path in read_gom_sources(package_dir)? {",
                 "let mut __pv = match read_gom_sources(package_dir) { Ok(v) => v, Err(e) => { return Err(e); } }; while __pv.len() > 0 { let path = __pv.remove(0);"),
@@ -57,8 +58,30 @@ UNIT = Unit(
                      ("let mut files = Vec::new();", "let mut files: Vec<SourceFileAst> = Vec::new();"),
                      ("let mut package_name = None;", "let mut package_name: Option<String> = None;", "*"),
                      (re.compile(r"&ast\.package\.0 != (\w+)"), r"string_ne(&ast.package.0, \1)", "*"),
+                     (re.compile(r'\b(\w+) == "Builtin"'), r'str_eq_lit(&\1, "Builtin")', "*"),
                      (re.compile(r"\b((?:\w+\.)*)ast\.package\.0\.clone\(\)"), r"string_clone(&\1ast.package.0)", "*")],
-           contract="ensures r matches Ok(u) ==> one_package(u),",
+           contract="ensures r matches Ok(u) ==> one_package(u),\n        r matches Ok(u) ==> !reserved_package_name(u.name@),",
            loop_fn=LOOP),
+        Fn(file="crates/compiler/src/pipeline/separate.rs", name="read_source_files", ret="r",
+           rules=["attrs", "fmtmsg", "msg_to_string", ("strip", "hir::"), ("consume_into", ["paths"])],
+           obligation="(check / build drivers) every file handed to the type checker declares the package being compiled, and that package is not "
+                      "the reserved `Builtin`",
+           pre_rewrites=[
+               (re.compile(r"let mut paths = input_files\.to_vec\(\);\s*paths\.sort\(\);\s*paths\.dedup\(\);"), "let paths = sorted_dedup_paths(input_files);", 1),
+               (re.compile(r"let src = fs::read_to_string\(&path\)\s*\.map_err\(\|err\| compile_error\(format!\([^;]*?\)\)\)\?;", re.S),
+                "let src = match fs_read_to_string(&path) { Ok(v) => v, Err(e) => { return Err(e); } };", 1),
+               ("let ast = parse_ast_file(&path, &src)?;", "let ast = match parse_ast_file(&path, &src) { Ok(v) => v, Err(e) => { return Err(e); } };"),
+               (re.compile(r"for import in ast\.imports\.iter\(\) \{\s*imports\.insert\(import\.0\.clone\(\)\);\s*\}"), "import_set_add(&mut imports, &ast);", 1),
+           ],
+           rewrites=[("input_files: &[PathBuf]", "input_files: &Vec<PathBuf>"), ("input_files.is_empty()", "input_files.len() == 0"),
+                     ("let mut files = Vec::new();", "let mut files: Vec<SourceFileAst> = Vec::new();"),
+                     ("let mut imports = HashSet::new();", "let mut imports: HashSet<String> = new_import_set();"),
+                     ("let mut source_list = Vec::new();", "let mut source_list: Vec<String> = Vec::new();"),
+                     ("path.display().to_string()", "path_display(&path)"),
+                     (re.compile(r"\bast\.package\.0 != package\b"), "str_ne_string(&ast.package.0, package)", "*"),
+                     (re.compile(r'\b(\w+) == "Builtin"'), r'strs_eq(\1, "Builtin")', "*")],
+           contract="ensures r matches Ok(t) ==> forall|i: int| 0 <= i < t.0@.len() ==> (#[trigger] t.0@[i]).ast.package.0@ == package@,\n"
+                    "        r is Ok ==> !reserved_package_name(package@),",
+           loop_fn=lambda k, header, kw, body: ("invariant forall|i: int| 0 <= i < files@.len() ==> (#[trigger] files@[i]).ast.package.0@ == package@,\ndecreases __iv0@.len(),")),
     ],
 )
